@@ -39,7 +39,9 @@ type FSpec struct {
 	ST    string `json:"st,omitempty"`    // jsonschema tag class ("description", "enum", ...)
 	Emb   string `json:"emb,omitempty"`   // "", "val" (EmbBase), "ptr" (*EmbOther), "tagged" (Leaf with a json name), "sval" / "sptr" (T embedded by value / through a pointer, collide.go)
 	Unexp bool   `json:"unexp,omitempty"` // unexported field
-	T     TSpec  `json:"t"`
+	// RawTag, when set, is the whole struct tag of the field, verbatim (Mode "rawtag"; tags.go: the tag-syntax family).
+	RawTag string `json:"rawtag,omitempty"`
+	T      TSpec  `json:"t"`
 }
 
 var primKinds = map[string]reflect.Type{
@@ -139,9 +141,9 @@ func (f *FSpec) structField() reflect.StructField {
 		ct, _ := corpus.ByName("Leaf")
 		return reflect.StructField{Name: "Leaf", Type: ct, Anonymous: true, Tag: `json:"leaf_emb"`}
 	case "sval":
-		return reflect.StructField{Name: f.Name, Type: f.T.Type(), Anonymous: true}
+		return reflect.StructField{Name: f.Name, Type: f.T.Type(), Anonymous: true, Tag: reflect.StructTag(f.RawTag)}
 	case "sptr":
-		return reflect.StructField{Name: f.Name, Type: reflect.PointerTo(f.T.Type()), Anonymous: true}
+		return reflect.StructField{Name: f.Name, Type: reflect.PointerTo(f.T.Type()), Anonymous: true, Tag: reflect.StructTag(f.RawTag)}
 	}
 	sf := reflect.StructField{Name: f.Name, Type: f.T.Type(), Tag: reflect.StructTag(f.tag())}
 	if f.Unexp {
@@ -152,6 +154,9 @@ func (f *FSpec) structField() reflect.StructField {
 
 // tag renders the struct tag of the field.
 func (f *FSpec) tag() string {
+	if f.Mode == "rawtag" {
+		return f.RawTag
+	}
 	var parts []string
 	opts := ""
 	if f.Omit {
@@ -182,6 +187,8 @@ func (f *FSpec) effectiveName() string {
 	switch f.Mode {
 	case "untagged", "nameless":
 		return f.Name
+	case "rawtag":
+		return "" // what the name is, is for encoding/json to say
 	case "dash":
 		return ""
 	case "dashlit":
@@ -437,11 +444,15 @@ func goString(t *TSpec) string {
 			case "tagged":
 				fs = append(fs, "corpus.Leaf `json:\"leaf_emb\"`")
 				continue
-			case "sval":
-				fs = append(fs, "/*embedded*/ "+goString(&f.T))
-				continue
-			case "sptr":
-				fs = append(fs, "/*embedded*/ *"+goString(&f.T))
+			case "sval", "sptr":
+				e := "/*embedded*/ " + goString(&f.T)
+				if f.Emb == "sptr" {
+					e = "/*embedded*/ *" + goString(&f.T)
+				}
+				if f.RawTag != "" {
+					e += " `" + f.RawTag + "`"
+				}
+				fs = append(fs, e)
 				continue
 			}
 			s := f.Name + " " + goString(&f.T)
@@ -546,6 +557,10 @@ func fieldOwnFeatures(f *FSpec, seen map[string]bool, sibNames map[string]bool) 
 	}
 	if f.Mode != "tagged" {
 		out[f.Mode] = true
+	}
+	if f.Mode == "rawtag" {
+		chainFeatures(&f.T, seen, out)
+		return out
 	}
 	if f.Omit {
 		out["omitempty"] = true
